@@ -1,5 +1,6 @@
 //! C02 - classification and field accessors follow the MIDI 1.0 status table.
 use crate::dom::*;
+use crate::check;
 use crate::nd::Nd;
 use crate::oracle as o;
 use crate::witness;
@@ -24,12 +25,12 @@ fn check_type_level(obs: &Obs, ty: ShortMessageType) {
         MessageSuperType::SystemRealTime => FuzzyMessageSuperType::SystemRealTime,
         MessageSuperType::SystemExclusive => FuzzyMessageSuperType::SystemExclusive,
     };
-    assert!(fuzzy == expect_fuzzy, "C02 type-level super type agrees with the message's");
-    assert!(
+    check!(fuzzy == expect_fuzzy, "C02 type-level super type agrees with the message's");
+    check!(
         fuzzy.main_category() == obs.main_category,
         "C02 type-level main category agrees with the message's"
     );
-    assert!(
+    check!(
         obs.super_type.main_category() == obs.main_category,
         "C02 super type's main category agrees with the message's"
     );
@@ -58,25 +59,25 @@ pub fn classify<N: Nd>(nd: &mut N, hi: u8, imp: u8) {
         }
     };
     let e = expected_obs(t, reported);
-    assert!(obs.ty == e.ty, "C02 type is determined by the status byte");
-    assert!(obs.super_type == e.super_type, "C02 super type follows the MIDI 1.0 table (Channel Mode = CC 120-127)");
-    assert!(obs.main_category == e.main_category, "C02 main category follows the table");
-    assert!(obs.channel == e.channel, "C02 channel present exactly for channel messages, = low nibble");
-    assert!(obs.key_number == e.key_number, "C02 key number accessor");
-    assert!(obs.velocity == e.velocity, "C02 velocity accessor");
-    assert!(obs.controller_number == e.controller_number, "C02 controller number accessor");
-    assert!(obs.control_value == e.control_value, "C02 control value accessor");
-    assert!(obs.program_number == e.program_number, "C02 program number accessor");
-    assert!(obs.pressure_amount == e.pressure_amount, "C02 pressure amount accessor");
-    assert!(obs.pitch_bend_value == e.pitch_bend_value, "C02 pitch bend value = data2 x 128 + data1");
-    assert!(obs.is_note == e.is_note, "C02 is_note");
-    assert!(obs.is_note_on == e.is_note_on, "C02 is_note_on treats velocity 0 as note-off");
-    assert!(obs.is_note_off == e.is_note_off, "C02 is_note_off treats Note On velocity 0 as note-off");
-    assert!(obs.structured == e.structured, "C02 structured form has the matching variant and fields");
-    assert!(obs.bytes == e.bytes && obs.to_bytes == e.to_bytes, "C01 C03 reported bytes");
+    check!(obs.ty == e.ty, "C02 type is determined by the status byte");
+    check!(obs.super_type == e.super_type, "C02 super type follows the MIDI 1.0 table (Channel Mode = CC 120-127)");
+    check!(obs.main_category == e.main_category, "C02 main category follows the table");
+    check!(obs.channel == e.channel, "C02 channel present exactly for channel messages, = low nibble");
+    check!(obs.key_number == e.key_number, "C02 key number accessor");
+    check!(obs.velocity == e.velocity, "C02 velocity accessor");
+    check!(obs.controller_number == e.controller_number, "C02 controller number accessor");
+    check!(obs.control_value == e.control_value, "C02 control value accessor");
+    check!(obs.program_number == e.program_number, "C02 program number accessor");
+    check!(obs.pressure_amount == e.pressure_amount, "C02 pressure amount accessor");
+    check!(obs.pitch_bend_value == e.pitch_bend_value, "C02 pitch bend value = data2 x 128 + data1");
+    check!(obs.is_note == e.is_note, "C02 is_note");
+    check!(obs.is_note_on == e.is_note_on, "C02 is_note_on treats velocity 0 as note-off");
+    check!(obs.is_note_off == e.is_note_off, "C02 is_note_off treats Note On velocity 0 as note-off");
+    check!(obs.structured == e.structured, "C02 structured form has the matching variant and fields");
+    check!(obs.bytes == e.bytes && obs.to_bytes == e.to_bytes, "C01 C03 reported bytes");
     check_type_level(&obs, ty);
     // C04: everything returned is in range
-    assert!(
+    check!(
         obs.channel.map_or(true, |c| c <= 15)
             && obs.key_number.map_or(true, |c| c <= 127)
             && obs.velocity.map_or(true, |c| c <= 127)
@@ -96,5 +97,5 @@ pub fn twin<N: Nd>(nd: &mut N) {
     let t = triple_with_hi(nd, 0xB);
     let m = raw_of(t);
     let mode = m.super_type() == MessageSuperType::ChannelMode;
-    assert!(mode == (t.1 >= 122), "twin: deliberately wrong boundary");
+    check!(mode == (t.1 >= 122), "twin: deliberately wrong boundary");
 }
